@@ -67,8 +67,14 @@ func genC10(r *sim.Rng, tier string, idx int) *GCase {
 		max = 40000 // several write calls of the output file
 	}
 	base := sim.Pick(r, safeNames)
+	if r.Chance(1, 8) {
+		base = sim.Pick(r, []string{"-", "-x", "--", "-k"}) // needs "--" on the command line
+	}
 	if r.Bool() {
 		// compress
+		if base == "-" {
+			base = "-y" // a bare "-" operand means standard input
+		}
 		if format == "lzma" {
 			v.Format = sim.Pick(r, []string{"lzma", "alone"})
 		} else if r.Bool() {
@@ -130,7 +136,7 @@ func genC10(r *sim.Rng, tier string, idx int) *GCase {
 	}
 	in := c.Files[0].Name
 	v.Files = []string{in}
-	v.DashDash = r.Chance(1, 5)
+	v.DashDash = r.Chance(1, 5) || in[0] == '-'
 	// surroundings: an existing target, a stale temp file, an unrelated file
 	e := modelOperand(&v, stateOf(buildWorld(c)), in)
 	tgt := e.Target
